@@ -115,7 +115,7 @@ func RunProfile(profile, tier string, seed int64, out string, shards int, script
 		types := []string{"int8", "int16", "int64", "uint8", "uint32", "float32", "float64", "int", "uintptr"}
 		for i := 0; i < n; i++ {
 			o := HistOpts{Types: []string{types[i%len(types)]}, MaxViews: 6, MinCh: 1, MaxCh: 3, MaxFrames: 4,
-				Steps: steps, Weights: DefaultWeights, CrossType: i%2 == 0}
+				Steps: steps, Weights: DefaultWeights, CrossType: i%2 == 0, Blind: i%4 == 1}
 			if i%3 == 2 { // larger shapes, mixed types (conversions across views)
 				o.Types = types
 				o.MaxCh, o.MaxFrames = 8, 24
@@ -126,6 +126,7 @@ func RunProfile(profile, tier string, seed int64, out string, shards int, script
 		driveBigIO(s, rng, thorough)
 		driveExtremes(s, rng, thorough)
 		driveWideFrames(s, rng, thorough)
+		driveBlind(s, rng, thorough)
 		return s.finish(profile, types)
 	}
 	if f, ok := profileFns[profile]; ok {
